@@ -43,8 +43,10 @@ Spec == Init /\ [][Next]_<<file, active>>
 ActiveInEveryInState == \A t \in GenLocal(file.a, active[1], active[2]) \cup GenNonLocal(file.b, active[1], active[2]) :
                             \E j \in DOMAIN t : t[j] = active
 
-EmitTable == PrintT(<<"TABLE", ToJson([k |-> K, nroots |-> NRoots,
+ASSUME TLCSet(7, 0)
+(* printed once: the table is a constant, but TLC would re-evaluate (and re-serialise) it in every state *)
+EmitTable == TLCGet(7) = 1 \/ (TLCSet(7, 1) /\ PrintT(<<"TABLE", ToJson([k |-> K, nroots |-> NRoots,
     files |-> {[a |-> {SortedSeq(l) : l \in f.a}, b |-> {SortedSeq(l) : l \in f.b},
                 gen |-> {<<r, k, GenLocal(f.a, r, k), GenNonLocal(f.b, r, k)>> : r \in 0 .. NRoots - 1, k \in 0 .. K - 1}]
-               : f \in Files}])>>)
+               : f \in Files}])>>))
 =============================================================================
